@@ -390,7 +390,7 @@ package block
 //@ pred SyncInv(m) := InvState(m) && m.store.height < 18446744073709551615
 
 //@ func (m *Manager) trySyncNextBlock(ctx, daHeight) (err)
-//@   property C02:kind:inv-establish,kind:inv-preserve,kind:pre,kind:frame,monotone,progress,inv
+//@   property C02:kind:inv-establish,kind:inv-preserve,kind:pre,kind:frame,monotone,progress,inv,scan-start-kept
 //@   property C03:no-halt,validated
 //@   property C05:kind:crash,kind:frame,inv,state-lbh,state-persisted,monotone
 //@   requires [wiring] m.metrics != nil && m.headerCache != nil && m.dataCache != nil && m.store != nil
@@ -406,10 +406,15 @@ package block
 //@   loop 1 invariant [state-lbh] m.lastState.LastBlockHeight == m.store.height && m.store.height < 18446744073709551615
 //@   loop 1 invariant [state-persisted] m.store.hasState && m.store.stateAt == StateOf(m.lastState)
 //@   loop 1 invariant [monotone] m.store.height >= old(m.store.height)
+// A restarted node resumes scanning the DA layer at the persisted DA height. The sync step cannot
+// know which DA heights still have events that were not consumed, so it must not move that height
+// (it stays at the configured start: a restart rescans, duplicates are dropped by the seen-sets).
+//@   loop 1 invariant [scan-start-kept] m.lastState.DAHeight == old(m.lastState.DAHeight)
 //@   loop 1 invariant [validated] sbd ==> val && val.res0 == nil && val.arg2 == sbd.arg2 && val.arg3 == sbd.arg3
 //@   loop 1 invariant [height-is-header] shh ==> sbd && shh.arg2 == sbd.arg2.BaseHeader.Height && m.store.height == shh.arg2
 //@   ensures [monotone] m.store.height >= old(m.store.height)
 //@   ensures [progress] err == nil && !ctxDone(ctx) ==> m.headerCache.itemAt[m.store.height + 1] == 0 || m.dataCache.itemAt[m.store.height + 1] == 0
+//@   ensures [scan-start-kept] m.lastState.DAHeight == old(m.lastState.DAHeight) && (!m.store.faulty ==> m.store.stateAt.daHeight == old(m.lastState.DAHeight))
 //@   ensures [inv] !m.store.faulty ==> SyncInv(m)
 //@   observe ab := call applyBlock
 //@   ensures [no-halt] err != nil ==> ctxDone(ctx) || m.store.faulty || (ab && ab.res1 != nil)
